@@ -721,6 +721,27 @@ theorem wall_clock_ops_spec (l : NaiveDT) (hl : ExtNDTInv l) (v k : Nat) (y' : I
   refine ⟨n8, n9, o1, o2, n1, n2, n3, n4, n5, n6, n7, vl.1, vl.2.1, a, b, c, d, ?_⟩
   rw [e]; exact el
 
+/-- the closure `DateTime::with_year` hands to `map_local` (`withYearLocal`, which `zoned_ops_spec` names and
+which is a copy of the model's) against the independent reading of Spec/ZonedSpec.lean, for every wall
+clock `l` (headroom day included): the wall clock itself when the year is unchanged (also a headroom
+year), otherwise the same month, day and time of day in year `y'` if `y'` is in the supported range and
+that date exists, else nothing -/
+theorem with_year_local_spec (l : NaiveDT) (hl : ExtNDTInv l) (y' : Int) :
+    withYearLocal y' l = .ok (yearReading? l y') ∧
+    (yearReading? l l.date.year = some l) ∧
+    (y' ≠ l.date.year → yearReading? l y' =
+      (ymdDate? y' (monthOfYo l.date.year l.date.ordinal.toNat)
+        (dayOfYo l.date.year l.date.ordinal.toNat)).map fun d => ⟨d, l.time⟩) := by
+  refine ⟨with_year_local l hl.1 y', ?_, ?_⟩
+  · unfold yearReading?; rw [if_pos rfl]
+  · intro hne
+    have h1 := with_year_local l hl.1 y'
+    obtain ⟨n1, _⟩ := ndt_ops_ext l hl.1 0 0 y'
+    unfold withYearLocal at h1
+    rw [if_neg (fun h => hne h.symm), n1] at h1
+    injection h1 with h1
+    exact h1.symm
+
 /-! ### the `Datelike` defaults `quarter`, `year_ce`, `num_days_in_month` on date-times -/
 
 /-- `NaiveDateTime` (every date of the range, every time of day) and `DateTime<FixedOffset>` /
@@ -1075,6 +1096,9 @@ example :
     NaiveDT.with_nanosecond ⟨dateOfYo 2024 60, ⟨7, 0⟩⟩ 1999999999 = .ok (some ⟨dateOfYo 2024 60, ⟨7, 1999999999⟩⟩) ∧
     Date.MAX.years_since Date.MIN = .ok (some 524285) ∧
     stepMonth 2024 12 1 = 1 ∧ stepYear 2024 12 1 = 2025 ∧ stepMonth 2024 1 (-1) = 12 ∧ stepYear 2024 1 (-1) = 2023 ∧
-    Month.feb.num_days 1900 = .ok (some 28) ∧ Month.feb.num_days 2000 = .ok (some 29) := by decide +kernel
+    Month.feb.num_days 1900 = .ok (some 28) ∧ Month.feb.num_days 2000 = .ok (some 29) ∧
+    withYearLocal 262143 ⟨Date.AFTER_MAX, ⟨3599, 0⟩⟩ = .ok (some ⟨Date.AFTER_MAX, ⟨3599, 0⟩⟩) ∧
+    withYearLocal 2024 ⟨Date.AFTER_MAX, ⟨3599, 0⟩⟩ = .ok (some ⟨dateOfYo 2024 1, ⟨3599, 0⟩⟩) ∧
+    yearReading? ⟨Date.AFTER_MAX, ⟨3599, 0⟩⟩ 262144 = none := by decide +kernel
 
 end Chrono.Props.C08
